@@ -52,7 +52,7 @@ def _relevant(item):
 
 
 def _outcome(run, k):
-    ma = run.ma(("LA;", "m%d" % k, "()V"))
+    ma = run.ma(run.gen(k))
     if ma is None:
         return None
     o = [("n", c.name, off) for c, off in ma.get_xref_new_instance()] + [("c", c.name, off) for c, off in ma.get_xref_const_class()]
